@@ -20,7 +20,7 @@
      Accounting       delivered + buffered + pending = produced
    With KeepHist = TRUE the behaviour is recorded in `hist` and printed when complete (simulation mode): C14 / C07 /
    C01 replay such behaviours on the real readers through forged streams (tools/checks/symlib.py). *)
-EXTENDS Integers, Sequences, TLC, Json
+EXTENDS LzRing, Sequences, TLC, Json
 
 CONSTANTS Kind,        \* "lzma" | "lzma2"
           B,           \* ring size (dictionary size rounded up by the reader)
@@ -31,9 +31,6 @@ CONSTANTS Kind,        \* "lzma" | "lzma2"
           SizeKnown,   \* lzma: header declares the size (else end marker)
           AllowBad,    \* the stream may contain a match whose distance is >= full
           KeepHist
-
-Min(a, b) == IF a < b THEN a ELSE b
-Max(a, b) == IF a > b THEN a ELSE b
 
 VARIABLES buf, start, pos, full, limit, pLen, pDist,     \* LZDecoder
           ref, nOut, orderOk,                            \* reference stream, bytes delivered, OutputInOrder monitor
@@ -165,7 +162,9 @@ RepeatPending ==
   /\ pc = "pending"
   /\ IF pLen > 0
        THEN LET r == Repeat(pDist, pLen) IN
-            buf' = r.buf /\ pos' = r.pos /\ full' = r.full /\ pLen' = r.pLen /\ pDist' = r.pDist
+            /\ buf' = r.buf /\ pos' = r.pos /\ full' = r.full /\ pLen' = r.pLen /\ pDist' = r.pDist
+            /\ Assert([pos |-> r.pos, pLen |-> r.pLen, pDist |-> r.pDist, full |-> r.full]
+                      = RepeatScalars(B, pos, limit, full, pDist, pLen), "LzRing.RepeatScalars disagrees with Repeat")
        ELSE UNCHANGED <<buf, pos, full, pLen, pDist>>
   /\ pc' = "decode"
   /\ UNCHANGED <<start, limit, ref, nOut, orderOk, want, got, chunkLeft, symLeft, chunkKind, endReached, failed,
@@ -183,7 +182,9 @@ Lit ==
 Match(dist, len) ==
   /\ pc = "decode" /\ pos < limit /\ len <= symLeft /\ dist < full
   /\ LET r == Repeat(dist, len) IN
-     buf' = r.buf /\ pos' = r.pos /\ full' = r.full /\ pLen' = r.pLen /\ pDist' = r.pDist
+     /\ buf' = r.buf /\ pos' = r.pos /\ full' = r.full /\ pLen' = r.pLen /\ pDist' = r.pDist
+     /\ Assert([pos |-> r.pos, pLen |-> r.pLen, pDist |-> r.pDist, full |-> r.full]
+               = RepeatScalars(B, pos, limit, full, dist, len), "LzRing.RepeatScalars disagrees with Repeat")
   /\ ref' = RefCopy(ref, dist, len) /\ symLeft' = symLeft - len
   /\ hist' = H(<<"match", dist, len>>)
   /\ UNCHANGED <<start, limit, nOut, orderOk, pc, want, got, chunkLeft, chunkKind, endReached, failed, needReset, done,
